@@ -20,6 +20,8 @@ CMP = ["==", "!=", ">", ">=", "<", "<="]
 SETOPS = ["and", "or", "unless"]
 IDENTS = ["a", "b", "app", "level", "status", "msg", "foo_bar", "_x", "x1", "duration_ms", "lvl", "container", "host", "path", "n"]
 # identifiers that are also keywords/functions: usable as labels when not followed by ( b w
+SEL_KEYWORDS = ["by", "on", "json", "drop", "keep", "bool", "offset", "without", "unwrap", "logfmt", "or", "and", "unless", "ignoring", "pattern", "regexp", "unpack",
+                "distinct", "line_format", "label_format", "decolorize", "group_left", "group_right", "ip", "sum", "count_over_time", "topk", "bytes", "duration"]
 KW_IDENTS = ["ip", "duration", "bytes", "rate", "sum", "count", "vector", "sort"]
 
 
@@ -474,7 +476,12 @@ class Gen:
         return {"k": "m", "l": self.ident(), "op": op, "v": v}
 
     def selector(self):
-        return [self.matcher() for _ in range(self.rng.choice([0, 1, 1, 2, 3]))]
+        ms = [self.matcher() for _ in range(self.rng.choice([0, 1, 1, 2, 3]))]
+        # in label-name position of a selector every keyword is a label name (D29)
+        for m in ms:
+            if self.rng.random() < 0.2:
+                m["l"] = self.rng.choice(SEL_KEYWORDS)
+        return ms
 
     def atom_pred(self):
         k = self.rng.choice(["m", "m", "num", "dur", "byt", "ip"])
